@@ -448,4 +448,101 @@ pub proof fn lemma_purge_preserves_symmetry(t: Tables, x: Ptr)
     }
 }
 
+// ---- L.c06: the handle ledger (strong(t) = handles held by the program + handles stored in values) is
+// inductive over the handle operations, given their contracts (U1/U7: exactly one counter moves by
+// exactly one; U3/U6 frames: adopt, unadopt and collections of other objects move no counter).
+pub open spec fn ledger_ok_m(sm: Map<Ptr, nat>, l: Ledger) -> bool {
+    &&& l.all.no_duplicates()
+    &&& forall|p: Ptr| l.all.contains(p) <==> sm.contains_key(p)
+    &&& forall|t: Ptr| sm.contains_key(t) ==> #[trigger] sm[t] == rcnt(l, t) + sum_held(l, l.all, t)
+}
+
+pub open spec fn set_root(l: Ledger, t: Ptr, n: nat) -> Ledger {
+    Ledger { all: l.all, roots: l.roots.insert(t, n), held: l.held }
+}
+
+pub open spec fn set_held(l: Ledger, p: Ptr, t: Ptr, n: nat) -> Ledger {
+    Ledger { all: l.all, roots: l.roots, held: l.held.insert((p, t), n) }
+}
+
+pub proof fn lemma_sum_held_set_root(l: Ledger, s: Seq<Ptr>, t: Ptr, n: nat, u: Ptr)
+    ensures sum_held(set_root(l, t, n), s, u) == sum_held(l, s, u),
+    decreases s.len(),
+{
+    if s.len() > 0 {
+        lemma_sum_held_set_root(l, s.drop_last(), t, n, u);
+        assert(hcnt(set_root(l, t, n), s.last(), u) == hcnt(l, s.last(), u));
+    }
+}
+
+/// changing the number of handles to t stored in p changes the sum for t by exactly that difference when p
+/// occurs once in the enumeration, and leaves every other target's sum alone
+pub proof fn lemma_sum_held_set_held(l: Ledger, s: Seq<Ptr>, p: Ptr, t: Ptr, n: nat, u: Ptr)
+    requires s.no_duplicates(),
+    ensures
+        u != t ==> sum_held(set_held(l, p, t, n), s, u) == sum_held(l, s, u),
+        !s.contains(p) ==> sum_held(set_held(l, p, t, n), s, t) == sum_held(l, s, t),
+        s.contains(p) ==> sum_held(set_held(l, p, t, n), s, t) + hcnt(l, p, t) == sum_held(l, s, t) + n,
+    decreases s.len(),
+{
+    let l2 = set_held(l, p, t, n);
+    if s.len() > 0 {
+        let sp = s.drop_last();
+        let q = s.last();
+        assert(sp.no_duplicates());
+        lemma_sum_held_set_held(l, sp, p, t, n, u);
+        assert(hcnt(l2, q, u) == (if q == p && u == t { n } else { hcnt(l, q, u) }));
+        assert(s.contains(p) <==> (sp.contains(p) || q == p)) by {
+            if sp.contains(p) { let i = choose|i: int| 0 <= i < sp.len() && sp[i] == p; assert(s[i] == p); }
+            if s.contains(p) && q != p { let i = choose|i: int| 0 <= i < s.len() && s[i] == p; assert(sp[i] == p); }
+            if q == p { assert(s[s.len() - 1] == p); }
+        }
+        if q == p {
+            assert(!sp.contains(p)) by {
+                if sp.contains(p) { let i = choose|i: int| 0 <= i < sp.len() && sp[i] == p; assert(s[i] == s[s.len() - 1]); }
+            }
+        }
+    }
+}
+
+/// the program gains (d = +1: clone, upgrade, new) or gives up (d = -1: drop of a live handle) a handle to t
+pub proof fn lemma_ledger_program_handle(sm: Map<Ptr, nat>, l: Ledger, t: Ptr, gain: bool)
+    requires ledger_ok_m(sm, l), sm.contains_key(t), !gain ==> rcnt(l, t) >= 1,
+    ensures
+        gain ==> ledger_ok_m(sm.insert(t, sm[t] + 1), set_root(l, t, rcnt(l, t) + 1)),
+        !gain ==> sm[t] >= 1 && ledger_ok_m(sm.insert(t, (sm[t] - 1) as nat), set_root(l, t, (rcnt(l, t) - 1) as nat)),
+{
+    let n: nat = if gain { rcnt(l, t) + 1 } else { (rcnt(l, t) - 1) as nat };
+    let l2 = set_root(l, t, n);
+    let sm2 = if gain { sm.insert(t, sm[t] + 1) } else { sm.insert(t, (sm[t] - 1) as nat) };
+    assert forall|u: Ptr| sm2.contains_key(u) implies #[trigger] sm2[u] == rcnt(l2, u) + sum_held(l2, l2.all, u) by {
+        lemma_sum_held_set_root(l, l.all, t, n, u);
+        assert(sm[u] == rcnt(l, u) + sum_held(l, l.all, u));
+    }
+    assert(forall|p: Ptr| l2.all.contains(p) <==> sm2.contains_key(p));
+}
+
+/// a handle to t that the program holds is moved into the value of a live object p (store), or back out
+/// (take): no counter changes (it is the same handle), the ledger just re-attributes it
+pub proof fn lemma_ledger_store_take(sm: Map<Ptr, nat>, l: Ledger, p: Ptr, t: Ptr, store: bool)
+    requires
+        ledger_ok_m(sm, l), sm.contains_key(t), sm.contains_key(p),
+        store ==> rcnt(l, t) >= 1, !store ==> hcnt(l, p, t) >= 1,
+    ensures
+        store ==> ledger_ok_m(sm, set_held(set_root(l, t, (rcnt(l, t) - 1) as nat), p, t, hcnt(l, p, t) + 1)),
+        !store ==> ledger_ok_m(sm, set_held(set_root(l, t, rcnt(l, t) + 1), p, t, (hcnt(l, p, t) - 1) as nat)),
+{
+    let r: nat = if store { (rcnt(l, t) - 1) as nat } else { rcnt(l, t) + 1 };
+    let n: nat = if store { hcnt(l, p, t) + 1 } else { (hcnt(l, p, t) - 1) as nat };
+    let l1 = set_root(l, t, r);
+    let l2 = set_held(l1, p, t, n);
+    assert(l.all.contains(p));
+    assert forall|u: Ptr| sm.contains_key(u) implies #[trigger] sm[u] == rcnt(l2, u) + sum_held(l2, l2.all, u) by {
+        lemma_sum_held_set_root(l, l.all, t, r, u);
+        lemma_sum_held_set_held(l1, l1.all, p, t, n, u);
+        assert(hcnt(l1, p, t) == hcnt(l, p, t));
+        assert(sm[u] == rcnt(l, u) + sum_held(l, l.all, u));
+    }
+}
+
 } // verus!
